@@ -235,6 +235,81 @@ func (r *Result) Note(s string) {
 	r.mu.Unlock()
 }
 
+// absorb adds what another result counted to this one; monitor findings only when asked to.
+func (r *Result) absorb(o *Result, monitors bool) {
+	o.mu.Lock()
+	defer o.mu.Unlock()
+	r.mu.Lock()
+	r.Evaluations += o.Evaluations
+	for k := range o.distinct {
+		r.distinct[k] = true
+	}
+	for k, v := range o.Distribution {
+		r.Distribution[k] += v
+	}
+	for _, x := range o.Samples {
+		if len(r.Samples) < 6 {
+			r.Samples = append(r.Samples, x)
+		}
+	}
+	r.Traces += o.Traces
+	r.Events += o.Events
+	r.Notes = append(r.Notes, o.Notes...)
+	r.mu.Unlock()
+	for _, f := range o.Findings {
+		if f.Kind != "monitor" || monitors {
+			r.Add(f)
+		}
+	}
+}
+
+func (r *Result) monitorFindings() []Finding {
+	r.mu.Lock()
+	defer r.mu.Unlock()
+	var out []Finding
+	for _, f := range r.Findings {
+		if f.Kind == "monitor" {
+			out = append(out, f)
+		}
+	}
+	return out
+}
+
+// Confirmed runs a scenario whose verdict is about real time ("a healthy link is not dropped": the link is
+// healthy only if the machine delivers pings, pongs and wake-ups within a fraction of the configured timeout,
+// which the scenario can estimate — scen.LagProbe, the proxy's frame log — but not know).  A monitor failure
+// of such a scenario is reported only if the same scenario, run again from scratch, fails too (two more
+// attempts): a change to the library that makes it drop healthy links does so every time, a machine that
+// stalled one goroutine for a few tens of milliseconds does not do it again at the same point.  A failure
+// that is not reproduced is counted as <name>.not-reproduced and described in the notes of the evidence;
+// model/implementation differences ("tie" findings) and everything the first run counted are kept as they are.
+func Confirmed(res *Result, name string, run func(r *Result) error) error {
+	first := NewResult(res.Property, res.Seed, res.Tier)
+	err := run(first)
+	mon := first.monitorFindings()
+	if err != nil || len(mon) == 0 {
+		res.absorb(first, true)
+		return err
+	}
+	for k := 0; k < 2; k++ {
+		again := NewResult(res.Property, res.Seed, res.Tier)
+		res.Count(name + ".rerun")
+		if rerr := run(again); rerr != nil {
+			continue // (the environment could not even set the scenario up: no second opinion from this attempt)
+		}
+		if len(again.monitorFindings()) > 0 {
+			res.absorb(first, true)
+			return nil
+		}
+	}
+	res.absorb(first, false)
+	res.Count(name + ".not-reproduced")
+	for _, f := range mon {
+		res.Note(fmt.Sprintf("%s: verdict %q (%s) was not reproduced by two further runs of the same scenario and is not reported: a timing verdict that does not repeat is attributed to the machine, not to the library", name, f.Signature, f.Detail))
+	}
+	return nil
+}
+
 func (r *Result) Write(path string) error {
 	r.mu.Lock()
 	defer r.mu.Unlock()
